@@ -293,6 +293,7 @@ type pipeEnd struct {
 	firstCloseStamp       int
 	readFault, writeFault bool
 	rejected              bool
+	closeErr              bool
 	sent                  []byte // everything that was ever queued in `in`
 }
 
@@ -361,6 +362,9 @@ func (p *pipeEnd) Close() error {
 	if p.firstCloseStamp == 0 {
 		p.firstCloseStamp = p.c.Tick()
 	}
+	if p.closeErr {
+		return errIO // a failing Close must not change what the proxy does
+	}
 	return nil
 }
 
@@ -368,6 +372,7 @@ func runProxy(c *core.Ctx) {
 	a := &pipeEnd{c: c, name: "A", readErrAt: -1, writeErrAt: -1}
 	b := &pipeEnd{c: c, name: "B", readErrAt: -1, writeErrAt: -1}
 	faults := c.S.PlanP(400)
+	a.closeErr, b.closeErr = c.S.PlanP(150), c.S.PlanP(150)
 	if faults {
 		for _, p := range []*pipeEnd{a, b} {
 			if c.S.FaultP(300) {
@@ -573,6 +578,7 @@ func runUnique(c *core.Ctx) {
 			init[k] = v
 		}
 		m = unique.NewKeyedMap(cmp, changed, init)
+		init[99] = uval{99, 0} // the caller's map is its own: later changes to it must not leak in
 	} else {
 		l = unique.NewKeyedList(func(v uval) int { return v[0] }, cmp, changed, initial)
 	}
